@@ -20,6 +20,9 @@ import time
 VERIF = os.path.dirname(os.path.dirname(os.path.abspath(__file__)))
 REPO = os.environ.get("VERIF_REPO", "/repo")
 CACHE = os.environ.get("VERIF_SCRATCH", "/var/tmp/verif-cache")
+# where evidence and replay files go; only the seeded-mutant runner (tools/run_seeded.py) redirects it, so that a
+# run against a deliberately broken copy never overwrites the evidence of /repo
+OUT = os.environ.get("VERIF_OUT", "/verif")
 GUARD = "samlang_verif"
 
 OFFLINE_ENV = {
@@ -174,7 +177,7 @@ class Result:
         if getattr(self, "nviol", 0) >= 25:
             self.nviol += 1
             return
-        d = os.path.join(VERIF, "replays", self.prop)
+        d = os.path.join(OUT, "replays", self.prop)
         os.makedirs(d, exist_ok=True)
         blob = json.dumps(replay_obj, sort_keys=True, indent=1, default=str)
         name = hashlib.sha256(blob.encode()).hexdigest()[:12] + ".json"
@@ -208,8 +211,8 @@ class Result:
             "wall_s": round(time.time() - self.t0, 2),
             "violations": getattr(self, "nviol", 0),
         }
-        os.makedirs(os.path.join(VERIF, "evidence"), exist_ok=True)
-        with open(os.path.join(VERIF, "evidence", self.prop + ".json"), "w") as f:
+        os.makedirs(os.path.join(OUT, "evidence"), exist_ok=True)
+        with open(os.path.join(OUT, "evidence", self.prop + ".json"), "w") as f:
             json.dump(ev, f, indent=1, default=str)
         for k in self.known_hits:
             print("KNOWN-FINDING: property=%s %s" % (self.prop, k))
